@@ -728,8 +728,15 @@ class Interp:
             x, y = self._real_term(a), self._real_term(b)
         elif ka == "str" and kb == "str":
             x, y = z3_of(a), z3_of(b)
+            # Python orders strings lexicographically by code point, as SMT-LIB's str.< / str.<= do
             if isinstance(op, ast.Lt):
-                return SBool(z3.StrLT(x, y)) if hasattr(z3, "StrLT") else SBool(x < y)
+                return SBool(x < y)
+            if isinstance(op, ast.LtE):
+                return SBool(x <= y)
+            if isinstance(op, ast.Gt):
+                return SBool(y < x)
+            if isinstance(op, ast.GtE):
+                return SBool(y <= x)
             raise Undecided("string ordering")
         else:
             if {ka, kb} & {"none", "str", "list", "dict"}:
